@@ -64,6 +64,11 @@ def failing_calls(u, rng):
     ctor('Span under a parent that refuses it', text.Span, [('stylename', 'x')], LI, ['ok'], True, qs(D.TEXTNS, 'span'), allowed=False)
     if styles is not None:
         ctor('P under office:styles (refused)', text.P, [], styles, [], True, qs(D.TEXTNS, 'p'), allowed=False)
+    # the parent named through the attributes= dictionary instead of the keyword
+    calls.append(('factory with attributes={parent: ...}, required attribute missing', lambda: text.H(attributes={'parent': cont}), None))
+    calls.append(('factory with attributes={parent: ..., bogus: ...}', lambda: text.P(attributes={'parent': cont, 'stylename': 'x', 'bogus': '1'}), None))
+    if styles is not None:
+        calls.append(('Style with attributes={parent: styles, family: ...}, name missing', lambda: style.Style(attributes={'parent': styles, 'family': 'paragraph'}), None))
     # shape factories (draw.py: StyleRefElement): a refused style reference, with parent= given
     from odf import draw
     wrong = style.Style(name='T9', family='text')              # not a graphic or presentation style
